@@ -158,6 +158,17 @@ def scForeign : Scenario where
     [.cl 0, .cl 0, .cl 0, .cl 0] ++ foreignNap ++ [.disp, .disp, .wk 0, .wk 0, .wk 0, .wk 0, .wk 0] ++ foreignNap ++
     [.cl 0, .cl 0] ++ dispPark ++ shutdownMoves 0 1 ++ foreignNap ++ dispExit ++ [.wk 0, .wk 0, .cl 0, .cl 0]
 
-def scenarios : List Scenario := [scWindow, scWindowBusy, scGap, scRestart, scStartRace, scHasWork, scForeign]
+/-- **Worker count 0** (`WithWorkerCount(0)`, outside the theorems' hypothesis `0 < W`): `Start` spawns the dispatcher
+and no worker; a `Submit` is accepted and counted, the dispatcher pops the task and blocks for ever in its send on the
+unbuffered dispatch channel; `Shutdown` has nobody to signal, `ShutdownComplete.Wait` returns at once (no worker was
+added) and `WaitIsZero` never does. -/
+def scZeroWorkers : Scenario where
+  name := "zero-workers"
+  p := { W := 0, cancel := false }
+  scripts := [[.start, .submit leaf, .shutdown, .waitComplete, .waitZero]]
+  moves := startMoves 0 ++ [.cl 0, .cl 0, .cl 0, .cl 0, .disp, .disp] ++ shutdownMoves 0 0 ++ [.cl 0, .cl 0, .cl 0]
+
+def scenarios : List Scenario :=
+  [scWindow, scWindowBusy, scGap, scRestart, scStartRace, scHasWork, scForeign, scZeroWorkers]
 
 end Hive.WP
